@@ -178,6 +178,9 @@ def analyse_magics(src):
                 for d in n.decorator_list:
                     if isinstance(d, ast.Name):
                         used.add(d.id)
+        # NAME = deco(OTHER) in the CLASS BODY wraps a method; the same statement shape inside a method body is an ordinary
+        # call of a helper (width = as_int(args[1])) and does not make the helper a decorator
+        for n in c.body:
             if isinstance(n, ast.Assign) and isinstance(n.value, ast.Call) and isinstance(n.value.func, ast.Name):
                 used.add(n.value.func.id)
     used.discard("wraps")
@@ -670,6 +673,7 @@ def analyse(src):
     res["registry"] = analyse_registry(src)
     from vt.gen import c03_static
     res["pp"] = c03_static.analyse_pp(src)
+    res["regexes"] = c03_static.analyse_regexes(src)
     try:
         res["arg_reads"] = c03_static.analyse_arg_reads(src, res["magics"])
     except (c03_static.Unsupported, OSError, SyntaxError) as e:
@@ -747,6 +751,14 @@ def render(info):
     L.append("Definition gen_pp_patterns : nat := %d." % len(info["pp"]["patterns"]))
     L.append("Definition gen_pp_regex_violations : nat := %d." % len(info["pp"]["problems"]))
     L.append("")
+    L.append("(* every other regular expression of the expansion path (vt/gen/c03_static.py analyse_regexes): magics.py (#iferror), magic_time.py,")
+    L.append("   magic_nodes.py, expr.py (tokenizer), templ/parser.py (#if/#switch name matchers), templ/scanner.py; each pinned by file + sha256 +")
+    L.append("   flags, run-time built patterns only from a pinned statement joining re.escape()d literals, none with nested overlapping quantifiers *)")
+    for rel, pat, fv in info["regexes"]["patterns"]:
+        L.append("(*   %s  flags=%d  %s *)" % (rel.split("/")[-1], fv, " ".join(pat.replace("*", "(star)").replace('"', "(dq)").split())[:160]))
+    L.append("Definition gen_regex_patterns : nat := %d." % len(info["regexes"]["patterns"]))
+    L.append("Definition gen_regex_violations : nat := %d." % len(info["regexes"]["problems"]))
+    L.append("")
     L.append("(* reads of lazily expanded arguments (vt/gen/c03_static.py analyse_arg_reads): ArgumentList.get(int) re-expands the node on every")
     L.append("   read; maximal number of reads of args[i] along one control path of each magic (decorator wrappers included);")
     L.append("   violations = (magic, i) read more often than once (or through a run-time index) beyond the reviewed allow-list *)")
@@ -780,6 +792,8 @@ def generate(src):
         raise Unsupported("exception-propagation discipline of magic calls broken: " + " || ".join(info["discipline"][:4]))
     if info["pp"]["problems"]:
         raise Unsupported("preprocessor regular expressions not pinned / not backtracking-safe: " + " || ".join(info["pp"]["problems"][:3]))
+    if info["regexes"]["problems"]:
+        raise Unsupported("regular expressions of the expansion path not pinned / not backtracking-safe: " + " || ".join(info["regexes"]["problems"][:3]))
     if info["arg_reads"]["problems"]:
         raise Unsupported("a magic reads a lazily expanded argument more than once: " + " || ".join(info["arg_reads"]["problems"][:4]))
     core.write_if_changed(os.path.join(core.COQ, "C03", "Gen_magics.v"), render(info))
